@@ -1,7 +1,9 @@
 """C01 — tag reads return exactly what the controller holds (E3 over requests x E1 over controller answers)."""
 from vmc.core.explore import Ctx, explore
 from vmc.core.report import Report
-from vmc.ref import enip, net, logix, projgen
+import struct
+
+from vmc.ref import enip, net, logix, projgen, wire as W
 from vmc.ref.projects import fill_image
 from . import logixreq as Q
 from .harness import call
@@ -68,8 +70,94 @@ def judge(got, want, text):
     return probs
 
 
+# ---------------------------------------------------------------- Micro800: strings are atomic, counted types (no LEN/DATA structure)
+M800_STRINGS = {
+    # tag: (type name, type code, length-prefix bytes, element values)
+    "s_one": ("SHORT_STRING", 0xDA, 1, ["pump"]),
+    "s_empty": ("SHORT_STRING", 0xDA, 1, [""]),
+    "s_ary": ("SHORT_STRING", 0xDA, 1, ["", "a", "", "x" * 80, "\xe9\xff", ""]),
+    "w_ary": ("STRING", 0xD0, 2, ["first", "", "third", ""]),
+    "s_last_empty": ("SHORT_STRING", 0xDA, 1, ["abc", ""]),
+}
+
+
+class M800StringDevice(enip.IdentityDevice):
+    """A tiny tag server for Read Tag on symbolic paths: counted strings, elements of different encoded sizes."""
+
+    def __init__(self):
+        super().__init__()
+        self.reads = []
+
+    def handle(self, req, info):
+        p = req.path
+        if req.service == 0x4C and p and p[0][0] == "symbol" and p[0][1] in M800_STRINGS:
+            tname, code, lw, vals = M800_STRINGS[p[0][1]]
+            idx = 0
+            if len(p) > 1:
+                if len(p) != 2 or p[1][0] != "member":
+                    return W.build_mr_reply(req.service, 0x04)
+                idx = p[1][1]
+            if len(req.data) != 2:
+                return W.build_mr_reply(req.service, 0x13 if len(req.data) < 2 else 0x15)
+            cnt = struct.unpack("<H", req.data)[0]
+            if cnt == 0 or idx + cnt > len(vals):
+                return W.build_mr_reply(req.service, 0xFF, [0x2105])
+            self.reads.append((p[0][1], idx, cnt))
+            body = b"".join(len(v).to_bytes(lw, "little") + v.encode("latin-1") for v in vals[idx : idx + cnt])
+            return W.build_mr_reply(req.service, 0, [], struct.pack("<H", code) + body)
+        return super().handle(req, info)
+
+
+def m800_strings_shard(rep):
+    import pycomm3
+    from pycomm3 import cip as C
+
+    dev = M800StringDevice()
+    t = enip.Target(dev, enip.Policy(large_fo="refuse08"), dict(W.DEFAULT_IDENTITY, product_name="2080-LC50-48QWB", major=12), keep_cip=False)
+    with net.World(t, io_budget=10**7):
+        d = pycomm3.LogixDriver("10.0.0.1", init_tags=False)
+        o = call(d.open)
+        for i, (name, (tname, code, lw, vals)) in enumerate(M800_STRINGS.items()):
+            n = len(vals)
+            d._tags[name] = {"tag_name": name, "dim": 1 if n > 1 else 0, "instance_id": 10 + i, "tag_type": "atomic", "data_type": tname, "data_type_name": tname,
+                             "type_class": C.Array(n, getattr(C, tname)) if n > 1 else getattr(C, tname),  # as the tag-list upload builds it
+                             "dimensions": [n if n > 1 else 0, 0, 0], "alias": False, "external_access": "Read/Write"}
+        reqs = []
+        for name, (tname, code, lw, vals) in M800_STRINGS.items():
+            n = len(vals)
+            if n == 1:
+                reqs.append((name, vals[0], tname))
+                continue
+            for i in range(n):
+                reqs.append((f"{name}[{i}]", vals[i], tname))
+                for c in range(2, n - i + 1):
+                    reqs.append((f"{name}[{i}]{{{c}}}", vals[i : i + c], f"{tname}[{c}]"))
+            reqs.append((f"{name}{{{n}}}", vals, f"{tname}[{n}]"))
+        calls = [[r] for r in reqs] + [reqs, list(reversed(reqs))]
+        for lst in calls:
+            out = call(d.read, *[r[0] for r in lst])
+            res = out[1] if out[0] == "ok" else None
+            res = res if isinstance(res, list) else [res]
+            for (text, want, wtyp), g in zip(lst, res if out[0] == "ok" else [None] * len(lst)):
+                probs = []
+                if out[0] != "ok":
+                    probs.append(("exception", f"read raised {out!r:.100}"))
+                elif not bool(g):
+                    probs.append(("falsy", f"error {getattr(g, 'error', None)!r:.80}"))
+                elif g.value != want:
+                    probs.append(("value", f"value {g.value!r:.80}, controller holds {want!r:.80}"))
+                elif g.type != wtyp:
+                    probs.append(("type", f"type {g.type!r}, documented {wtyp!r}"))
+                rep.case(("m800-strings", text, len(lst)), outcome="ok" if not probs else probs[0][0])
+                for clause, detail in probs:
+                    empties = "with-empty-string" if (want == "" or (isinstance(want, list) and "" in want)) else "non-empty"
+                    rep.violation(f"read/micro800-counted-string/{clause}/{empties}", f"Micro800, open() -> {o!r:.40}: read({text!r}) in a call of {len(lst)}: {detail}", {"cfg": ["m800-strings"], "image": 0, "requests": [text], "choices": []})
+        call(d.close)
+    rep.sample({"micro800_counted_strings": list(M800_STRINGS), "requests": len(reqs)})
+
+
 def shards(tier, seed):
-    sh = []
+    sh = [("m800-strings", "-", "m800", 500), ("lists", "P2", "v20", 500, "debuglog"), ("single", "P1", "v32", 4000, "debuglog"), ("lists", "P3", "m800", 500, "debuglog")]
     for pn in PROJECTS:
         for pers in PERS:
             for conn in CONNS:
@@ -183,6 +271,9 @@ def twins_shard(rep, pers, conn):
 
 def run_shard(shard, tier, seed):
     rep = Report()
+    if shard[0] == "m800-strings":
+        m800_strings_shard(rep)
+        return rep
     kind, pn, pers, conn = shard
     if kind == "twins":
         twins_shard(rep, pers, conn)
